@@ -1,8 +1,12 @@
 ---------------------------- MODULE GeoJsonGen ----------------------------
 (* C17 - writes the abstract cases (data set + the 16 option sets) as ndjson. *)
 EXTENDS GeoJsonSpace, IOUtils, Json
-CaseOf(d) == [fam |-> d.fam, nodes |-> d.nodes, ways |-> d.ways, rels |-> d.rels, opts |-> OptSeqs]
-ASSUME ndJsonSerialize(IOEnv.OUT, SetToSeq({CaseOf(d) : d \in DataSets}))
+\* families F1..F7 say nothing about ids: their cases are dealt out over four assignments of id classes that fit
+FitTriples == << SmallIds, Ids("i31", "i32", "top40"), Ids("top40", "i31", "i32"), Ids("i32", "top40", "small") >>
+CaseOf(all, i) == LET d == all[i] IN
+  [fam |-> d.fam, nodes |-> d.nodes, ways |-> d.ways, rels |-> d.rels,
+   ids |-> IF d.fam \in {"F8", "S"} THEN d.ids ELSE FitTriples[(i % 4) + 1], opts |-> OptSeqs]
+ASSUME LET all == SetToSeq(DataSets) IN ndJsonSerialize(IOEnv.OUT, [i \in DOMAIN all |-> CaseOf(all, i)])
 VARIABLE g
 GInit == g = 0
 GNext == UNCHANGED g
